@@ -182,6 +182,18 @@ def tie(ctx):
         extra.append(cj)
     for e in extra:
         groups.append((e["gene"], [tuple(c) for c in e["copies"]], None))
+    # directed: three to five copies that all have ONE allele number, and that number is a member of a common tandem (the
+    # tandem step then finds a partner list that is empty: the copies still have to end up on two haplotypes)
+    for gd in pool:
+        gene, _ = instances.load_gene(gd)
+        members = list(dict.fromkeys(str(x) for t in gene.common_tandems for x in t))
+        r.shuffle(members)
+        for key in members[:(3 if quick else 12)]:
+            cands = [m for m in gene.alleles if real_key(m) == key and m != gene.deletion_allele()]
+            if not cands:
+                continue
+            n = r.choice([3, 3, 4, 5])
+            groups.append((gd, [(ma, r.choice(list(gene.alleles[ma].minors)), []) for ma in (r.choice(cands) for _ in range(n))], None))
     nbase = 90 if quick else 1500
     for i in range(nbase):
         gd = pool[i % len(pool)]
